@@ -35,6 +35,7 @@ type seqResult struct {
 	Steps   int            `json:"steps"`
 	Comp    string         `json:"comp,omitempty"`
 	Extra   map[string]int `json:"extra,omitempty"`
+	Features []string `json:"features,omitempty"`
 }
 
 // seqHooks lets a property customise the generic sequence execution.
@@ -135,6 +136,9 @@ func runSeq(t *seqTask, hk *seqHooks) *seqResult {
 			res.Comp, _ = w.DB.GetProperty("leveldb.compcount")
 		}
 		res.Enabled = w.Enabled(t.Alpha)
+		if w.DB != nil && hasMode(t, "features") {
+			res.Features = w.Features()
+		}
 		if w.DB != nil {
 			doChecks()
 		}
@@ -169,6 +173,9 @@ type seqSpec struct {
 	Checks string
 	Mode   string
 	Probes []string
+	// Prefixes: start the search from the states these histories reach instead of the
+	// freshly opened DB ("start from non-initial states").
+	Prefixes [][]string
 }
 
 type seqStats struct {
@@ -206,6 +213,36 @@ func bfs(c *explore.Ctx, pool *explore.Pool, spec seqSpec, prop string) seqStats
 	st.States = 1
 	st.Layouts[rootRes.Layout]++
 	frontier = []node{{nil, rootRes.Enabled}}
+	if len(spec.Prefixes) > 0 {
+		frontier = nil
+		var tasks [][]byte
+		for _, pf := range spec.Prefixes {
+			tasks = append(tasks, explore.MustJSON(seqTask{Cfg: spec.Cfg, Ops: pf, Alpha: spec.Alpha, Checks: spec.Checks, Mode: spec.Mode, Probes: spec.Probes}))
+		}
+		res := make([]seqResult, len(tasks))
+		pool.Map(tasks, func(i int, b []byte, err error) {
+			if err == nil {
+				json.Unmarshal(b, &res[i])
+			} else {
+				res[i].Viol = []string{"worker crashed: " + err.Error()}
+			}
+		})
+		for i, r := range res {
+			st.Transitions++
+			if len(r.Viol) > 0 {
+				if reportSeq(c, pool, prop, seqTask{Cfg: spec.Cfg, Ops: spec.Prefixes[i], Alpha: spec.Alpha, Checks: spec.Checks, Mode: spec.Mode, Probes: spec.Probes}, r) {
+					st.Viol++
+				}
+				continue
+			}
+			if !seen[r.Key] {
+				seen[r.Key] = true
+				st.States++
+				st.Layouts[r.Layout]++
+				frontier = append(frontier, node{spec.Prefixes[i], r.Enabled})
+			}
+		}
+	}
 	for d := 1; d <= spec.Depth && len(frontier) > 0; d++ {
 		if c.OutOfTime() {
 			st.Exhaustive = false
@@ -269,6 +306,101 @@ func bfs(c *explore.Ctx, pool *explore.Pool, spec seqSpec, prop string) seqStats
 		}
 	}
 	return st
+}
+
+// findRichHistories runs a breadth-first search (no oracle beyond the model comparison) and
+// returns, for every layout feature seen, the shortest operation sequence reaching a state
+// with that feature, preferring states that combine many features. Used to start the fault
+// and crash enumerations from deep, tombstone-rich, multi-table layouts.
+func findRichHistories(c *explore.Ctx, pool *explore.Pool, cfg string, alpha []string, depth, max int) ([][]string, map[string]int) {
+	seen := map[uint64]bool{}
+	type node struct {
+		ops     []string
+		enabled []string
+	}
+	type cand struct {
+		ops  []string
+		feat []string
+	}
+	var cands []cand
+	featCount := map[string]int{}
+	frontier := []node{{nil, alpha}}
+	for d := 1; d <= depth && len(frontier) > 0; d++ {
+		var tasks [][]byte
+		var metas [][]string
+		for _, n := range frontier {
+			for _, op := range n.enabled {
+				ops := append(append([]string{}, n.ops...), op)
+				metas = append(metas, ops)
+				tasks = append(tasks, explore.MustJSON(seqTask{Cfg: cfg, Ops: ops, Alpha: alpha, Checks: "db", Mode: "features"}))
+			}
+		}
+		results := make([]seqResult, len(tasks))
+		pool.Map(tasks, func(i int, b []byte, err error) {
+			if err == nil {
+				json.Unmarshal(b, &results[i])
+			}
+		})
+		var next []node
+		for i, r := range results {
+			if len(r.Viol) > 0 || r.Key == 0 || seen[r.Key] {
+				continue
+			}
+			seen[r.Key] = true
+			next = append(next, node{metas[i], r.Enabled})
+			for _, f := range r.Features {
+				featCount[f]++
+			}
+			if len(r.Features) >= 3 {
+				cands = append(cands, cand{metas[i], r.Features})
+			}
+		}
+		frontier = next
+		if c.OutOfTime() {
+			break
+		}
+	}
+	// greedy cover: repeatedly take the candidate adding most uncovered features (shortest first on ties)
+	sort.SliceStable(cands, func(i, j int) bool { return len(cands[i].ops) < len(cands[j].ops) })
+	covered := map[string]bool{}
+	var out [][]string
+	for len(out) < max {
+		best, gain := -1, 0
+		for i, cd := range cands {
+			g := 0
+			for _, f := range cd.feat {
+				if !covered[f] {
+					g++
+				}
+			}
+			if g > gain {
+				best, gain = i, g
+			}
+		}
+		if best < 0 {
+			break
+		}
+		out = append(out, cands[best].ops)
+		for _, f := range cands[best].feat {
+			covered[f] = true
+		}
+	}
+	// then the feature-richest remaining ones
+	sort.SliceStable(cands, func(i, j int) bool { return len(cands[i].feat) > len(cands[j].feat) })
+	have := map[string]bool{}
+	for _, o := range out {
+		have[strings.Join(o, " ")] = true
+	}
+	for _, cd := range cands {
+		if len(out) >= max {
+			break
+		}
+		if k := strings.Join(cd.ops, " "); !have[k] {
+			have[k] = true
+			out = append(out, cd.ops)
+		}
+	}
+	return out, featCount
 }
 
 // reportSeq confirms a violation by re-running it (must reproduce identically) and reports it.
